@@ -212,7 +212,7 @@ def check(ctx):
            "take it (a pose of the longer trajectory is used twice)",
            key=KEY_F2)
 
-    _reduce_together(ctx)
+    ctx.section(_reduce_together, ctx)
 
     # ------------------------------------------------------------ associate
     snd = None
